@@ -1,9 +1,10 @@
 """C19 - cw20: the three allowance views agree, also after migration."""
 from ..engine import show, OPTION
-from ..idioms import dispatch, entry_points, storage_items, walk, field_of, order_facts
+from ..idioms import dispatch, entry_points, storage_items, walk, field_of, order_facts, version_literal
 from .listing import extract, deep_walk
 
 ID = "C19"
+SPENDER_INDEX_SINCE = "0.14.0"     # cw20-base release that introduced ALLOWANCES_SPENDER (CHANGELOG; the source's own gate at the pinned commit)
 CRATE = "cw20_base"
 NONE = ("variant", OPTION, "None", ())
 
@@ -16,7 +17,8 @@ RULES = {
     "R19.3": "views: Allowance reads ALLOWANCES[(owner, spender)]; AllAllowances ranges over ALLOWANCES.prefix(owner) and "
              "AllSpenderAllowances over ALLOWANCES_SPENDER.prefix(spender), each copying allowance/expires field-for-field",
     "R19.5": "the rebuild gate compares versions as versions: the decision that guards the rebuild is the strict `stored < parsed` on "
-             "semver::Version values (the stored contract version against a parsed literal), not a comparison of strings; which "
+             "semver::Version values (the stored contract version against a parsed literal, 0.14.0 = the release that introduced "
+             "the spender index - a fact about released storage formats, frozen from the source and CHANGELOG), not a comparison of strings; which "
              "literal it is remains a runtime matter",
     "R19.4": "migrate rebuilds the spender map by iterating the whole owner map and saving [(spender, owner)] := allowance",
 }
@@ -161,6 +163,11 @@ def check_migrate(ctx, p, a, b, ALW, ALWS):
                 gate = c[0]
             if parsed and stored and strict and not any(x[0] == "call" and x[1].endswith(("as_str", "to_string")) for x in walk(lo)):
                 good = True
+                # release boundary (a fact about the released storage formats, see RULES): the spender index exists from 0.14.0 on
+                ctx.ob("R19.5", key + "/release boundary", version_literal(hi) == SPENDER_INDEX_SINCE, sites=[b[0].site],
+                       detail="the rebuild is gated by stored < %s, but the spender index was introduced in %s: tokens stored by the "
+                              "releases in between are migrated without / with a needless rebuild" % (version_literal(hi), SPENDER_INDEX_SINCE),
+                       sample={"boundary": version_literal(hi)})
         ctx.ob("R19.5", key + "/rebuild gate", good, sites=[b[0].site],
                detail="the rebuild of the spender index is gated by %s, which is not `stored semver version < parsed semver literal`"
                       % (show(gate)[:200] if gate else "no version decision"), sample={"gate": show(gate)[:160] if gate else None})
